@@ -60,6 +60,11 @@ fn eval_x(id: &str, m: &Movie, fl: &FileLayout, rep: &mut Report, args: &Args, l
     let built = build_plain(m, fl, &|top| {
         if let Some(s) = large {
             crate::layoutx::mark_large(top, s, 5);
+            // every other one of these movies also carries 1-3 unknown boxes (free, skip, wide,
+            // uuid, a made-up type) somewhere in the tree: the tables stay consistent
+            if s % 2 == 1 {
+                crate::layoutx::insert_unknown(top, s ^ 0x5EED);
+            }
         }
     });
     if large.is_some() {
